@@ -24,7 +24,7 @@ ASSUMPTIONS = [
 
 
 def gen_case(r):
-    d = G.doc(r, 4 if r.coin(50) else 3)
+    d = G.cap(G.doc(r, 4 if r.coin(50) else 3), 300)  # (validated once per permutation: no thousand-item containers here)
     n = r.between(0, 5)
     rules = []
     for _ in range(n):
